@@ -192,5 +192,42 @@ func VerifC10Provocations() (map[string]func() string, error) {
 		e, err := resolveDisableMap(&IntExp{Value: 1}, strMap().Value, nil)
 		return verifErrText(err) + " / " + fmt.Sprint(e)
 	}
+	// a reference indexed by several map calls whose (unknown) index sources have different key sets
+	result["RefExp.updateForks"] = func() string {
+		ref := &RefExp{Kind: KindCall, Id: "S", Forks: make(map[*CallStm]CollectionIndex)}
+		fork := make(map[*CallStm]CollectionIndex)
+		for i := 0; i < len(keys); i++ {
+			c := &CallStm{Id: fmt.Sprintf("C%02d", (i*7)%len(keys)), DecId: "S"}
+			a := &MapExp{Kind: KindMap, Value: map[string]Exp{"a": &IntExp{}, "b": &IntExp{}}}
+			b := &MapExp{Kind: KindMap, Value: map[string]Exp{"a": &IntExp{}, "c": &IntExp{}}}
+			ref.Forks[c] = unknownIndex{src: a}
+			fork[c] = unknownIndex{src: b}
+		}
+		r, err := ref.updateForks(fork)
+		return verifErrText(err) + " / " + fmt.Sprint(len(r.Forks))
+	}
+	// a split literal whose keys differ from the call's map source in several keys
+	result["SplitExp.BindingPath"] = func() string {
+		m := intMap()
+		other := &MapExp{Kind: KindMap, Value: make(map[string]Exp, len(keys))}
+		for i, k := range keys {
+			other.Value[k+"_x"] = &IntExp{Value: int64(i)}
+		}
+		sp := &SplitExp{Value: m, Call: call, Source: other}
+		_, err := sp.BindingPath("", nil, lookup)
+		return verifErrText(err)
+	}
+	// merging a split literal over a key set it does not have
+	result["MergeExp.BindingPath"] = func() string {
+		other := &MapExp{Kind: KindMap, Value: make(map[string]Exp, len(keys))}
+		for i, k := range keys {
+			other.Value[k+"_x"] = &IntExp{Value: int64(i)}
+		}
+		inner := intMap()
+		mg := &MergeExp{Call: &CallGraphStage{Fqid: "ID.S", call: call}, MergeOver: other,
+			Value: &SplitExp{Value: inner, Call: call, Source: inner}}
+		_, err := mg.BindingPath("", nil, lookup)
+		return verifErrText(err)
+	}
 	return result, nil
 }
